@@ -1,0 +1,23 @@
+//go:build verif
+
+// Spec predicates for the table half of the XML reader and for table copies (properties C09, C03), read by
+// /verif/engine (govc). The contracts that use them are the parseTable* entries of zz_contracts_verif_reader.go
+// and the clone family (zz_contracts_verif_clone.go, CopyTable in zz_contracts_verif_table2.go).
+// Comments only: with or without the build tag this file adds no code to the package.
+package document
+
+// Side objects of a borders / margins element: <x>Above(b, lo) - every side is nil or was allocated at or after the
+// allocation counter stood at lo; <x>Live(b) - every side is allocated now (needed to tell it from what later
+// iterations allocate); <x>Apart(b) - no two non-nil sides are the same object.
+//@ spec tblBordersAbove(b *TableBorders, lo int) bool = above(b.Top, lo) && above(b.Left, lo) && above(b.Bottom, lo) && above(b.Right, lo) && above(b.InsideH, lo) && above(b.InsideV, lo)
+//@ spec tblBordersLive(b *TableBorders) bool = live(b.Top) && live(b.Left) && live(b.Bottom) && live(b.Right) && live(b.InsideH) && live(b.InsideV)
+//@ spec tblBordersApart(b *TableBorders) bool = (b.Top == nil || (b.Top != b.Left && b.Top != b.Bottom && b.Top != b.Right && b.Top != b.InsideH && b.Top != b.InsideV)) && (b.Left == nil || (b.Left != b.Bottom && b.Left != b.Right && b.Left != b.InsideH && b.Left != b.InsideV)) && (b.Bottom == nil || (b.Bottom != b.Right && b.Bottom != b.InsideH && b.Bottom != b.InsideV)) && (b.Right == nil || (b.Right != b.InsideH && b.Right != b.InsideV)) && (b.InsideH == nil || (b.InsideH != b.InsideV))
+//@ spec tcBordersAbove(b *TableCellBorders, lo int) bool = above(b.Top, lo) && above(b.Left, lo) && above(b.Bottom, lo) && above(b.Right, lo) && above(b.InsideH, lo) && above(b.InsideV, lo) && above(b.TL2BR, lo) && above(b.TR2BL, lo)
+//@ spec tcBordersLive(b *TableCellBorders) bool = live(b.Top) && live(b.Left) && live(b.Bottom) && live(b.Right) && live(b.InsideH) && live(b.InsideV) && live(b.TL2BR) && live(b.TR2BL)
+//@ spec tcBordersApart(b *TableCellBorders) bool = (b.Top == nil || (b.Top != b.Left && b.Top != b.Bottom && b.Top != b.Right && b.Top != b.InsideH && b.Top != b.InsideV && b.Top != b.TL2BR && b.Top != b.TR2BL)) && (b.Left == nil || (b.Left != b.Bottom && b.Left != b.Right && b.Left != b.InsideH && b.Left != b.InsideV && b.Left != b.TL2BR && b.Left != b.TR2BL)) && (b.Bottom == nil || (b.Bottom != b.Right && b.Bottom != b.InsideH && b.Bottom != b.InsideV && b.Bottom != b.TL2BR && b.Bottom != b.TR2BL)) && (b.Right == nil || (b.Right != b.InsideH && b.Right != b.InsideV && b.Right != b.TL2BR && b.Right != b.TR2BL)) && (b.InsideH == nil || (b.InsideH != b.InsideV && b.InsideH != b.TL2BR && b.InsideH != b.TR2BL)) && (b.InsideV == nil || (b.InsideV != b.TL2BR && b.InsideV != b.TR2BL)) && (b.TL2BR == nil || (b.TL2BR != b.TR2BL))
+//@ spec tblMarAbove(b *TableCellMargins, lo int) bool = above(b.Top, lo) && above(b.Left, lo) && above(b.Bottom, lo) && above(b.Right, lo)
+//@ spec tblMarLive(b *TableCellMargins) bool = live(b.Top) && live(b.Left) && live(b.Bottom) && live(b.Right)
+//@ spec tblMarApart(b *TableCellMargins) bool = (b.Top == nil || (b.Top != b.Left && b.Top != b.Bottom && b.Top != b.Right)) && (b.Left == nil || (b.Left != b.Bottom && b.Left != b.Right)) && (b.Bottom == nil || (b.Bottom != b.Right))
+//@ spec tcMarAbove(b *TableCellMarginsCell, lo int) bool = above(b.Top, lo) && above(b.Left, lo) && above(b.Bottom, lo) && above(b.Right, lo)
+//@ spec tcMarLive(b *TableCellMarginsCell) bool = live(b.Top) && live(b.Left) && live(b.Bottom) && live(b.Right)
+//@ spec tcMarApart(b *TableCellMarginsCell) bool = (b.Top == nil || (b.Top != b.Left && b.Top != b.Bottom && b.Top != b.Right)) && (b.Left == nil || (b.Left != b.Bottom && b.Left != b.Right)) && (b.Bottom == nil || (b.Bottom != b.Right))
